@@ -190,6 +190,10 @@ the old one outside `allNames` (the real code appends `_1`, `_2`, …). -/
 def renOf (c : Call) (l : Nat) : Nat :=
   if l ∈ c.localNames then maxList (allNames c) + 1 + l else l
 
+/-- storage that no name of either routine or of an enclosing scope denotes: the callee frame
+used (by the driver) to run the *original* program; `Props/C07` proves it fresh for every call -/
+def farFrame (c : Call) (l : Nat) : Nat := maxList (allNames c) + 1 + l
+
 /-! ## `InlineTrans.validate` -/
 
 inductive Refusal where
